@@ -87,7 +87,15 @@ pub fn dwarf_section_info(arch: Arch, m: &ModSpec) -> ExplicitModuleSectionInfo<
     let text_svma = m.base_svma.wrapping_add(m.start.wrapping_sub(m.base_avma));
     let text_svma_end = m.base_svma.wrapping_add(m.end.wrapping_sub(m.base_avma));
     let eh_frame_svma = text_svma_end.wrapping_add(0x1000) & !7;
-    let hdr_svma = eh_frame_svma.wrapping_add(0x80_0000);
+    // the search table's entries are relative to the header's own address: usually the header
+    // lies above all code (every entry negative); one module in three states it in the middle of
+    // its text range instead, so that the table holds entries of both signs (code sections on
+    // both sides of `.eh_frame_hdr`)
+    let hdr_svma = if (m.start / 8 + m.n_cies as u64) % 3 == 0 && m.end - m.start >= 0x40 {
+        text_svma.wrapping_add((m.end - m.start) / 2) & !3
+    } else {
+        eh_frame_svma.wrapping_add(0x80_0000)
+    };
     let mut info: ExplicitModuleSectionInfo<Bytes> = ExplicitModuleSectionInfo {
         base_svma: m.base_svma,
         text_svma: Some(text_svma..text_svma_end),
